@@ -40,8 +40,8 @@ TEXT = {
   "consumed == f(registers) (get_consumed_byte_count, break_on_end_of_input), emit actions move lexeme_start to the lexeme end, tag_start is held exactly in the states between '<' and the end of the tag name (st_hold, all 74 state functions), finish_tag_name releases it on every path, and an end of input in a text state holds nothing back (uniform postcondition); write() keeps exactly chunk[consumed..]. Schedule independence is relational and only bounded.",
   "A-parse-loop; look-ahead length bound not stated as a contract"),
  "C10": ("proof",
-  "limiter: Ok <=> prev+n <= max and the charge is recorded (Kani function contracts, full usize domain, complete); Arena::append charges exactly the growth before reserving and is unchanged on failure, LimitedVec::push charges capacity*size_of and Drop returns it (Kani, symbolic limit, lengths bounded); Arena's sequence view and the three buffer error exits of write() (Verus, unbounded). One known finding (F-C10-1, ns_stack).",
-  "A-no-usize-wrap, A-reserve-exact (try_reserve_exact may over-allocate), monotonicity in M relational; bounded heap-growth and combined-limit probes (counting allocator) in U-PARSE-B"),
+  "limiter: Ok <=> prev+n <= max and the charge is recorded (Kani function contracts, full usize domain, complete); Arena::append charges exactly the growth before reserving and is unchanged on failure, LimitedVec::push charges capacity*size_of and Drop returns it (Kani, symbolic limit, lengths bounded); Arena's sequence view and the three buffer error exits of write() (Verus, unbounded). One known finding (F-C10-1, ns_stack). Unbounded accounting in Verus (U-MEMV): Arena::append keeps capacity <= charged and charges exactly the missing capacity before reserving it, LimitedVec::push keeps capacity*size_of == charged and Drop returns exactly that, for every length and limit.",
+  "A-no-usize-wrap, A-reserve-exact (try_reserve_exact may over-allocate), monotonicity in M relational; bounded heap-growth and combined-limit probes (counting allocator) in U-PARSE-B; A-reserve-exact now also used by U-MEMV (try_reserve_exact assumed exact, as the source's own debug_assert_eq! does), A-vec-cap (capacity unchanged by push/extend within capacity, clear, truncate)"),
  "C11": ("proof",
   "the four error exits of write/end are verified: bail-out handlers run exactly once iff the error's own flag is set (ParsingAmbiguity never), before the raw flush; the flush covers every unemitted received byte; try_produce_token_from_lexeme keeps rcs at the failing lexeme (commit discipline). One known finding (F-C11-1: bytes held by the streaming text decoder are lost).",
   "A-parse-loop; observer-only controller for the byte-exact clause; the documented text-handler exception is modelled by the ghost text_failed"),
